@@ -39,6 +39,15 @@ pub fn history_pool() -> Vec<V> {
 }
 
 /// everything observable of encoding and decoding one value through Zinc
+/// pool of the free-running probe: every third value of the history pool, timestamps in many
+/// zones, numbers in many units
+pub fn probe_pool() -> Vec<V> {
+    let mut p: Vec<V> = history_pool().into_iter().step_by(3).collect();
+    p.extend(u::datetimes().into_iter().step_by(37).take(120));
+    p.extend(u::UNITS.iter().map(|un| V::numu(1.5, un)));
+    p
+}
+
 pub fn zinc_observation(v: &V) -> String {
     let lv = to_lib(v);
     let t = to_zinc_string(&lv).map_err(|e| e.to_string());
@@ -129,6 +138,13 @@ pub fn run(tier: Tier) -> i32 {
     run.assume("component-wise `same` (numbers numerically equal or both NaN) is the intended equality of the statement");
     run.assume("chrono/chrono-tz trusted for calendar arithmetic and zone offsets");
     run.assume("zone name of a timestamp = text after the first '/' of the IANA name (libhaystack's convention)");
+    crate::engine::quiet_panics();
+    {
+        let pool: Vec<V> = probe_pool();
+        if probe_first(&mut run, "zinc-codec", &pool, &zinc_observation, &|v: &V| to_json(v)) {
+            return run.finish(&replay);
+        }
+    }
     crate::engine::quiet_panics();
 
     let scalars = u::scalars(tier);
@@ -294,6 +310,10 @@ pub fn run(tier: Tier) -> i32 {
 }
 
 pub fn replay(case: &J) -> Verdict {
+    if case["free_running"] == "zinc-codec" {
+        let pool: Vec<V> = probe_pool();
+        return replay_probe(&pool, &zinc_observation, &|v: &V| to_json(v));
+    }
     if case["history_repeats"].is_string() {
         return super::common::replay_history_repeats(case, &|j| crate::model::v::from_json(j), &zinc_observation, "zinc-codec");
     }
